@@ -16,7 +16,7 @@ structure ShState where
 
 inductive ElabErr where
   | attributeError         -- original code: `frozenset` has no `add`
-  | assertionError         -- repaired code: a register unknown to the prepared shadow
+  | lateRegister           -- repaired code: a register unknown to the prepared shadow (added to the map after the first elaboration): refused with ValueError
   | valueError             -- the overlap limit cannot be satisfied
 deriving DecidableEq, Repr
 
@@ -24,7 +24,7 @@ def ShState.new (ov : Option Nat) : ShState := ⟨[], false, 1, ov⟩
 
 /-- `_Shadow.add` as repaired: once prepared, only check that the register is known -/
 def ShState.add (s : ShState) (r : Reg) : Except ElabErr ShState :=
-  if s.frozen then (if s.ranges.contains r then .ok s else .error .assertionError)
+  if s.frozen then (if s.ranges.contains r then .ok s else .error .lateRegister)
   else .ok { s with ranges := if s.ranges.contains r then s.ranges else s.ranges ++ [r]
                     size := max s.size r.rsz }
 
